@@ -43,6 +43,7 @@ def shards(tier, seed):
         if A in (3, 4):
             out.append(dict(name="alphabet_history/A%d" % A, fn="alphabet_history", A=A, Lmax=Lmax, wmax=wmax, weight=500))
             out.append(dict(name="largebatch/A%d" % A, fn="largebatch", A=A, Lmax=Lmax, wmax=wmax, weight=500))
+            out.append(dict(name="argtypes/A%d" % A, fn="argtypes", A=A, Lmax=Lmax, wmax=wmax, weight=600))
         for fn in ("substitute", "insert", "delete", "randomize", "invalid"):
             out.append(dict(name="%s/A%d" % (fn, A), fn=fn, A=A, Lmax=Lmax, wmax=wmax,
                             weight=A ** Lmax))
@@ -80,8 +81,9 @@ def _expect_ins(codes, mrows, p):
     return numpy.concatenate([codes[:, :p], mr, codes[:, p:]], axis=1)
 
 
-def _check_call(rec, fname, f, X, Xcopy, extra_tensors, valid, expected_codes, case, args, kwargs):
-    """One library call decides len(X) cases."""
+def _check_call(rec, fname, f, X, Xcopy, extra_tensors, valid, expected_codes, case, args, kwargs, lenient_refusal=False):
+    """One library call decides len(X) cases.  lenient_refusal: a loud error for a valid span is only counted (used for position
+    objects of exotic integer types, which the functions document as `int`; a silent wrong answer is still a violation)."""
     N = X.shape[0]
     st, val = call(f, X, *args, **kwargs)
     rec.case(N, N)
@@ -95,6 +97,9 @@ def _check_call(rec, fname, f, X, Xcopy, extra_tensors, valid, expected_codes, c
             t.copy_(tc)
     if valid:
         if st != "ok":
+            if lenient_refusal:
+                rec.count("refused_position_type")
+                return
             rec.violation(fname + ":rejects_valid", case, expected="value", observed=val,
                           msg="valid span rejected")
             return
@@ -214,7 +219,11 @@ def run_randomize(rec, sh, seed):
                     for probs, pname in ((uni, "uniform"), (per, "per-example")):
                         for s in (0, 1, seed + 2):
                             case = dict(fn="randomize", A=A, L=L, start=a, end=b, n=n, probs=pname, seed=s)
+                            pc = probs.clone()
                             st, val = call(ersatz.randomize, X, a, b, probs=probs, n=n, random_state=s)
+                            if not torch.equal(probs, pc):
+                                rec.violation("randomize:probs_modified", case, msg="the caller's probability tensor changed by the call")
+                                probs.copy_(pc)
                             rec.case(N, N)
                             if not torch.equal(X, Xc):
                                 rec.violation("randomize:input_modified", case)
@@ -406,6 +415,91 @@ def run_largebatch(rec, sh):
     rec.sample(dict(fn="largebatch", A=A, B=[255, 256, 257, 300, 1000]))
 
 
+POS_TYPES = [("int", int), ("numpy.int64", numpy.int64), ("numpy.int32", numpy.int32), ("numpy.int8", numpy.int8),
+             ("numpy.uint8", numpy.uint8), ("numpy.uint32", numpy.uint32), ("numpy.uint64", numpy.uint64),
+             ("0-d int64 tensor", lambda v: torch.tensor(v, dtype=torch.int64)), ("0-d int32 tensor", lambda v: torch.tensor(v, dtype=torch.int32)),
+             ("0-d ndarray", lambda v: numpy.array(v, dtype=numpy.int64))]
+
+
+def _pos(v, mk):
+    """the integer v as the given integer-like type, or None if the type cannot hold it"""
+    if mk in (numpy.uint8, numpy.uint32, numpy.uint64) and v < 0:
+        return None
+    return mk(v)
+
+
+def _same_pos(p, v):
+    try:
+        return int(p) == v
+    except Exception:  # noqa: BLE001
+        return False
+
+
+def run_argtypes(rec, sh):
+    """Positions handed over as every integer-like type a caller may hold (Python / numpy signed and unsigned scalars, 0-d tensors and
+    arrays): same result or same rejection as with a Python int, and the position object itself is never modified."""
+    from tangermeme import ersatz
+    A = sh["A"]
+    alpha = list(ALPHA[:A])
+    L = 5
+    codes = all_codes(A, L)[::7]
+    X = ohe(codes, A, torch.float32)
+    Xc = X.clone()
+    m2 = numpy.array([[1, 0]])
+    m1 = numpy.array([[A - 1]])
+    for tname, mk in POS_TYPES:
+        for a in range(-2, L + 3):
+            pa = _pos(a, mk)
+            if pa is None:
+                continue
+            case = dict(A=A, L=L, start=a, position_type=tname)
+            # substitute / insert / multisubstitute with a 2-column motif
+            marg = _motif_forms(m2, A, "shared", len(codes))
+            v_sub = 0 <= a <= L - 2
+            _check_call(rec, "substitute", ersatz.substitute, X, Xc, [], v_sub, _expect_sub(codes, m2, a) if v_sub else None,
+                        dict(case, fn="substitute"), (marg,), dict(start=pa, alphabet=alpha), lenient_refusal=tname != "int")
+            _check_call(rec, "insert", ersatz.insert, X, Xc, [], 0 <= a <= L, _expect_ins(codes, m2, a) if 0 <= a <= L else None,
+                        dict(case, fn="insert"), (marg,), dict(start=pa, alphabet=alpha), lenient_refusal=tname != "int")
+            v_ms = 0 <= a and a + 2 + 1 + 1 <= L
+            exp = None
+            if v_ms:
+                exp = _expect_sub(_expect_sub(codes, m2, a), m1, a + 3)
+            _check_call(rec, "multisubstitute", ersatz.multisubstitute, X, Xc, [], v_ms, exp, dict(case, fn="multisubstitute", spacing=1),
+                        ([s_of(m2[0]), s_of(m1[0])], 1), dict(start=pa, alphabet=alpha), lenient_refusal=tname != "int")
+            if not _same_pos(pa, a):
+                rec.violation("multisubstitute:position_argument_modified", dict(case, fn="substitute/insert/multisubstitute"),
+                              expected=a, observed=str(pa), msg="the caller's position object changed by the call")
+                pa = _pos(a, mk)
+            for b in range(-2, L + 3):
+                pb = _pos(b, mk)
+                if pb is None:
+                    continue
+                valid = 0 <= a < b <= L
+                c2 = dict(case, fn="delete", end=b)
+                _check_call(rec, "delete", ersatz.delete, X, Xc, [], valid, numpy.concatenate([codes[:, :a], codes[:, b:]], axis=1) if valid else None,
+                            c2, (pa, pb), {}, lenient_refusal=tname != "int")
+                uni = torch.full((1, A), 1.0 / A, dtype=torch.float64)
+                uni[0, -1] = 1.0 - float(uni[0, :-1].sum())
+                st, val = call(ersatz.randomize, X, pa, pb, probs=uni, n=2, random_state=3)
+                rec.case(1, 1)
+                if st != "ok" and valid and tname != "int":
+                    rec.count("refused_position_type")
+                elif (st == "ok") != valid:
+                    rec.violation("randomize:accepts_invalid" if st == "ok" else "randomize:rejects_valid", dict(c2, fn="randomize"),
+                                  expected="value" if valid else "raise", observed=val if st != "ok" else list(val.shape))
+                elif valid:
+                    g, ok = decode(val)
+                    if not ok or not (g[:, :, :a] == codes[:, None, :a]).all() or not (g[:, :, b:] == codes[:, None, b:]).all():
+                        rec.violation("randomize:flank_changed", dict(c2, fn="randomize"))
+                if not _same_pos(pa, a) or not _same_pos(pb, b):
+                    rec.violation("delete:position_argument_modified", c2, expected=[a, b], observed=[str(pa), str(pb)])
+                    pa = _pos(a, mk)
+                if not torch.equal(X, Xc):
+                    rec.violation("randomize:input_modified", dict(c2, fn="randomize"))
+                    X = Xc.clone()
+    rec.sample(dict(fn="argtypes", A=A, L=L, position_types=[t for t, _ in POS_TYPES], starts="[-2, L+2]", spans="all (start,end) in [-2,L+2]^2"))
+
+
 def run_invalid(rec, sh):
     """Inputs that are not one-hot / wrong alphabet: must be rejected by every primitive."""
     from tangermeme import ersatz
@@ -523,6 +617,9 @@ def run_shard(sh, tier, seed):
         return rec.result()
     if fn == "largebatch":
         run_largebatch(rec, sh)
+        return rec.result()
+    if fn == "argtypes":
+        run_argtypes(rec, sh)
         return rec.result()
     if fn in ("substitute", "insert"):
         run_substitute_insert(rec, sh, fn)
